@@ -61,7 +61,7 @@ def random_shape(rng):
         rx.append(r)
     rules = []
     if rng.random() < 0.5:
-        freq = rng.choice(['repeated', 'start', 'dt', '0.5', 0.25])
+        freq = rng.choice(['repeated', 'start', 'dt', '0.5', 0.25, '2.5e1', '1e-3', 5e-05, '.5'])      # time points in every spelling float() accepts
         rules.append(rng.choice([('assignment', {'equation': 'D = kf * A + B'}, freq), ('additive', {'equation': 'D = A + B + C'}, freq),
                                  ('assignment', {'equation': 'Kd = A * 2 + 1'}, freq)]))
     return dict(species=list(SPECIES), reactions=rx, parameters=params, rules=rules)
